@@ -52,6 +52,7 @@ type Contract struct {
 	// LocalEnsures: `A ==> B` where A speaks about parameters/results and B may mention locals; at a return
 	// site where B's locals are not in scope the obligation is "A is false here".
 	LocalEnsures []*Clause
+	GhostEnsures []*Clause
 	Modifies     []*Clause
 	HasModifies  bool
 	Loops        map[int]*LoopSpec
@@ -470,7 +471,7 @@ func (S *Specs) parseLines(lines []rawLine, ctx *PkgCtx, pkgShort string, extern
 			if cur != nil {
 				cur.Interf = true
 			}
-		case "requires", "ensures", "ensures-local":
+		case "requires", "ensures", "ensures-local", "ensures-ghost":
 			if cur == nil {
 				fail(l, "%s outside func", word)
 				continue
@@ -481,6 +482,10 @@ func (S *Specs) parseLines(lines []rawLine, ctx *PkgCtx, pkgShort string, extern
 			}
 			if word == "requires" {
 				cur.Requires = append(cur.Requires, c)
+			} else if word == "ensures-ghost" {
+				// history/provenance tag over an uninterpreted ghost predicate: assumed at call sites, not checked in the body
+				c.Kind = "ensures-ghost"
+				cur.GhostEnsures = append(cur.GhostEnsures, c)
 			} else if word == "ensures-local" {
 				c.Kind = "ensures-local"
 				cur.LocalEnsures = append(cur.LocalEnsures, c)
@@ -753,7 +758,7 @@ func resolveTypeExpr(ctx *PkgCtx, e ast.Expr) (types.Type, error) {
 }
 
 var directiveWords = map[string]bool{"import": true, "package": true, "func": true, "extern": true, "props": true, "trusted": true,
-	"pure": true, "ghost": true, "nooverflow": true, "interference": true, "requires": true, "ensures": true, "ensures-local": true, "modifies": true,
+	"pure": true, "ghost": true, "nooverflow": true, "interference": true, "requires": true, "ensures": true, "ensures-local": true, "ensures-ghost": true, "modifies": true,
 	"loop": true, "callback": true, "at": true, "lemma": true, "global": true}
 
 func startsWithDirective(body string) bool {
